@@ -189,7 +189,28 @@ def run(tier):
             if not (abs(s - 1) < 1e-6 or abs(s) < 1e-6):
                 cls = classify(m, fa, kind, flat, want)
                 v.violation(_key("not-normalised", kind, cls), f"{text}: {kind} out of descriptor {fa} sums to {s}", {"instance": text})
-    v.coverage = {"states": states, "transitions": trans, "traces_validated_against_impl": len(results), "instances": len(results),
+    # the graph of a mirrored molecule is a function of that molecule: it does not depend on whether the original's graph was asked for before
+    def _summary(G_):
+        lab = lambda n: n.generate_string(True) + "#" + str(getattr(n, "descriptor_num", ""))
+        return sorted((lab(a), lab(b), sorted((k, round(float(x), 9)) for k, x in d.items() if isinstance(x, (int, float)))) for a, b, d in G_.edges(data=True))
+    n_mirror = 0
+    for m in mols[:40]:
+        if len(m.elems) < 2:
+            continue
+        text = m.text()
+        try:
+            a = g.Molecule(text).gen_mirror()
+            fresh = _summary(a.gen_reaction_graph())
+            o = g.Molecule(text)
+            o.gen_reaction_graph()
+            later = _summary(o.gen_mirror().gen_reaction_graph())
+        except Exception:
+            continue          # whether a mirror has a graph at all is not C16's matter
+        n_mirror += 1
+        if fresh != later:
+            v.violation("C16:mirror-graph-depends-on-an-earlier-graph-call", f"{text}: gen_mirror().gen_reaction_graph() differs when gen_reaction_graph() was called on the original first",
+                        {"instance": text})
+    v.coverage = {"mirror_graphs_checked_for_history": n_mirror, "states": states, "transitions": trans, "traces_validated_against_impl": len(results), "instances": len(results),
                   "edges_compared": n_edges, "model_invariants": ["IGraph (law at every decision = out-edges of the chosen node)", "Normalised", "WeightEdgesCompatible"],
                   "samples": samples}
     v.assumptions = ["edges of probability zero are not edges (ignored on both sides)",
